@@ -33,6 +33,7 @@ type Query {
   echo(s: String): String
   fail: String
   boom: String
+  ctxinfo: String!
 }
 type Mutation {
   m(v: Int): Int!
@@ -196,6 +197,15 @@ func (s *Schema) resolve(ctx context.Context, object string, f graphql.Collected
 			return string(b), nil
 		}
 		return "null", nil
+	case "Query.ctxinfo":
+		// everything request-specific that the operation context carries: a leak of another
+		// request's operation name, variables, extensions or headers shows up in the body
+		oc := graphql.GetOperationContext(ctx)
+		info := map[string]any{"operationName": oc.OperationName, "variables": oc.Variables, "extensions": oc.Extensions,
+			"header": oc.Headers.Values("X-Verif"), "rawQuery": oc.RawQuery}
+		b, _ := json.Marshal(info)
+		q, _ := json.Marshal(string(b))
+		return string(q), nil
 	case "Query.fail":
 		return "null", fmt.Errorf("fail resolver error")
 	case "Query.boom":
